@@ -79,15 +79,19 @@ func buildChain(r *lib.Rng, z *zoo) (*object, error) {
 	if err != nil {
 		return nil, err
 	}
+	shared := []compose.Option{
+		compose.WithLambdaOption(lopt{Val: "S"}).DesignateNode(pk[0], "z"),
+		compose.WithCallbacks(sharedHandler("sd")).DesignateNode(pk[1]),
+	}
 	return &object{
 		kind: "chain", shape: []string{fmt.Sprintf("parallel:%d", w)},
 		nIn: 5, paras: allParas,
-		optSet:  []int{0, optLambdaDesignated, optLambdaGlobal, optCbGlobal, optCbThree | optCbDesignated, optCtxHandlers | optLambdaDesignated},
+		optSet:  []int{0, optLambdaDesignated, optLambdaGlobal, optCbGlobal, optCbThree | optCbDesignated, optCtxHandlers | optLambdaDesignated, optShared, optShared | optLambdaGlobal | optCbGlobal},
 		baseCtx: sharedCtx,
 		call: func(ctx context.Context, rc *callRec, sp spec) string {
 			in := rc.tag + strings.Repeat("ab", sp.In) + fmt.Sprint(sp.In)
 			opts := append(lambdaOpts(rc, sp.Opt, pk[0], "z"), cbOptions(rc, sp.Opt, pk[:2])...)
-			return runPara[string, string](ctx, run, sp.Para, in, codecS, opts)
+			return runPara[string, string](ctx, run, sp.Para, in, codecS, withShared(sp.Opt, shared, opts))
 		},
 	}, nil
 }
@@ -213,15 +217,20 @@ func buildState(r *lib.Rng, z *zoo) (*object, error) {
 	if err != nil {
 		return nil, err
 	}
+	shared := []compose.Option{
+		compose.WithLambdaOption(lopt{Val: "S"}).DesignateNode("a"),
+		compose.WithCallbacks(sharedHandler("so")),
+		compose.WithCallbacks(sharedHandler("sd")).DesignateNode(par[0]),
+	}
 	return &object{
 		kind: "state", shape: []string{fmt.Sprintf("dag:%v", dag), fmt.Sprintf("writers:%d", w)},
 		nIn: 4, paras: allParas,
-		optSet:  []int{0, optLambdaDesignated, optCbGlobal, optCbThree | optCbDesignated, optCtxHandlers},
+		optSet:  []int{0, optLambdaDesignated, optCbGlobal, optCbThree | optCbDesignated, optCtxHandlers, optShared, optShared | optLambdaDesignated | optCbDesignated},
 		baseCtx: sharedCtx,
 		call: func(ctx context.Context, rc *callRec, sp spec) string {
 			in := V{ID: rc.tag, Lim: sp.In, H: fmt.Sprintf("in%d", sp.In)}
 			opts := append(lambdaOpts(rc, sp.Opt, "a"), cbOptions(rc, sp.Opt, par[:2])...)
-			return runPara[V, V](ctx, run, sp.Para, in, codecV, opts)
+			return runPara[V, V](ctx, run, sp.Para, in, codecV, withShared(sp.Opt, shared, opts))
 		},
 	}, nil
 }
@@ -321,10 +330,19 @@ func buildNested(r *lib.Rng, z *zoo) (*object, error) {
 	if err != nil {
 		return nil, err
 	}
+	shared := []compose.Option{
+		compose.WithLambdaOption(lopt{Val: "S"}).DesignateNodeWithPath(compose.NewNodePath("sub", "y"), compose.NewNodePath("sub2", "y")),
+		compose.WithCallbacks(sharedHandler("sp")).DesignateNodeWithPath(compose.NewNodePath("sub2", "yf")),
+		compose.WithCallbacks(sharedHandler("so")),
+	}
+	if depth3 {
+		shared = append(shared, compose.WithLambdaOption(lopt{Val: "S3"}).DesignateNodeWithPath(compose.NewNodePath("sub", "inner", "x0")))
+	}
+	shared = shared[:len(shared):len(shared)]
 	return &object{
 		kind: "nested", shape: []string{fmt.Sprintf("depth3:%v", depth3)},
 		nIn: 4, paras: allParas,
-		optSet:  []int{0, optLambdaDesignated, optLambdaGlobal, optCbGlobal, optCbThree | optCbDesignated, optCtxHandlers | optLambdaDesignated},
+		optSet:  []int{0, optLambdaDesignated, optLambdaGlobal, optCbGlobal, optCbThree | optCbDesignated, optCtxHandlers | optLambdaDesignated, optShared, optShared | optLambdaDesignated, optShared | optCbGlobal | optLambdaGlobal},
 		baseCtx: sharedCtx,
 		call: func(ctx context.Context, rc *callRec, sp spec) string {
 			in := V{ID: rc.tag, Lim: sp.In, H: fmt.Sprintf("in%d", sp.In)}
@@ -341,7 +359,7 @@ func buildNested(r *lib.Rng, z *zoo) (*object, error) {
 				opts = append(opts, compose.WithLambdaOption(lopt{Tag: rc.tag, Val: fmt.Sprintf("g%d", rc.spec)}))
 			}
 			opts = append(opts, cbOptions(rc, sp.Opt, []string{"sub", "sub2"})...)
-			return runPara[V, V](ctx, run, sp.Para, in, codecV, opts)
+			return runPara[V, V](ctx, run, sp.Para, in, codecV, withShared(sp.Opt, shared, opts))
 		},
 	}, nil
 }
